@@ -2,6 +2,7 @@ import CasbinModel.Basic
 import CasbinModel.Proto
 import CasbinModel.Effect
 import CasbinModel.RoleGraph
+import CasbinModel.PatRoles
 import CasbinModel.Rbac
 import CasbinModel.KeyMatch
 import CasbinModel.Sexpr
@@ -45,8 +46,19 @@ def dummyEnforcer : Enforcer :=
     enabled := true, autoSave := true, autoBuild := true, autoNotify := true, callbacks := 1,
     hasWatcher := false, gfuncs := [], userFns := [], log := [] }
 
+/-- the matching functions the harness may install on a role manager, by name (`-` = none) -/
+def matchFnOf (n : String) : RoleFn String :=
+  match n with
+  | "keyMatch" => some (fun a b => keyMatch a.toList b.toList)
+  | "keyMatch2" => some (fun a b => (keyMatch2 a.toList b.toList).getD false)
+  | _ => none
+
 structure DrvState where
   rm : RoleMgr String := RoleMgr.new 10
+  /-- the role manager with matching functions (`prm.*` ops) and the names of the functions installed -/
+  prm : PRm String := PRm.new 10
+  prf : String := "-"
+  pdf : String := "-"
   spec : Spec := {}
   enf : Enforcer := dummyEnforcer
   /-- eval table in force for `enf` -/
@@ -452,6 +464,23 @@ def step (st : DrvState) (f : List String) : DrvState × String :=
   | ["rm.has", a, b, d] => (st, boolS (st.rm.hasLink (unesc a) (unesc b) (domOf d)))
   | ["rm.roles", a, d] => (st, encList (sortStrings (st.rm.getRoles (unesc a) (domOf d))))
   | ["rm.users", a, d] => (st, encList (sortStrings (st.rm.getUsers (unesc a) (domOf d))))
+  | ["prm.new", n, rf, df] => ({ st with prm := PRm.new n.toNat!, prf := rf, pdf := df }, "ok")
+  | ["prm.fn", rf, df] => ({ st with prf := rf, pdf := df }, "ok")
+  | ["prm.add", a, b, d] => ({ st with prm := st.prm.addLink (matchFnOf st.prf) (unesc a) (unesc b) (domOf d) }, "ok")
+  | ["prm.del", a, b, d] =>
+    (match st.prm.deleteLink (matchFnOf st.prf) (matchFnOf st.pdf) (unesc a) (unesc b) (domOf d) with
+     | some rm' => ({ st with prm := rm' }, "ok")
+     | none => (st, "err:rbac"))
+  | ["prm.clear"] => ({ st with prm := st.prm.clear }, "ok")
+  | ["prm.has", a, b, d] => (st, boolS (st.prm.hasLink (matchFnOf st.prf) (matchFnOf st.pdf) (unesc a) (unesc b) (domOf d)))
+  | ["prm.roles", a, d] => (st, encList (sortStrings (st.prm.getRoles (matchFnOf st.prf) (matchFnOf st.pdf) (unesc a) (domOf d))))
+  | ["prm.users", a, d] => (st, encList (sortStrings (st.prm.getUsers (matchFnOf st.prf) (matchFnOf st.pdf) (unesc a) (domOf d))))
+  | ["prm.snap", names, doms] =>
+    -- every ordered pair of names in every domain, one character per has_link answer
+    let ns := decList names
+    let ds := (doms.splitOn ",").map domOf
+    (st, String.ofList (ds.flatMap (fun d => ns.flatMap (fun a => ns.map (fun b =>
+      if st.prm.hasLink (matchFnOf st.prf) (matchFnOf st.pdf) a b d then 't' else 'f')))))
   | ["rm.snap", names, doms, mask] =>
     (st, rmSnap st.rm (decList names) ((doms.splitOn ",").map domOf) mask.toList)
   | ["rm.snapf", names, doms] =>
